@@ -78,7 +78,7 @@ type Assign map[string]int
 
 // argValues: coerced argument values of a selection of a field with arguments (GraphQL spec,
 // CoerceArgumentValues); def is the schema default of x.
-func argValues(form, varMode int, def int64) (x *big.Int, ylen int) {
+func argValues(form, varMode, varVal int, def int64) (x *big.Int, ylen int) {
 	switch form {
 	case ArgNone:
 		return big.NewInt(def), 0 // schema default
@@ -93,7 +93,7 @@ func argValues(form, varMode int, def int64) (x *big.Int, ylen int) {
 	case ArgVar:
 		switch varMode {
 		case VarGiven:
-			return big.NewInt(2), 0
+			return big.NewInt(int64(varVal)), 0
 		case VarDefault:
 			return big.NewInt(4), 0 // variable default
 		case VarAbsent:
@@ -180,7 +180,7 @@ func (r *refEval) objField(object string, n *Node, child *big.Int) *big.Int {
 		var x *big.Int
 		ylen := 0
 		if def, ok := argDefault[object+"."+n.Name]; ok {
-			x, ylen = argValues(n.Arg, r.op.VarMode, def)
+			x, ylen = argValues(n.Arg, r.op.VarMode, r.op.varVal(), def)
 		}
 		v := bigFn(fn, child, x, ylen)
 		if v.Cmp(child) >= 0 {
